@@ -568,6 +568,22 @@ func (ts *Terms) extract(t *Term, i int) *Term {
 func (ts *Terms) load(addr ssa.Value, fr *Frame, depth int) *Term {
 	switch a := addr.(type) {
 	case *ssa.Global:
+		// a table initialised once by its declaration: the record of its initial values
+		if m := globalStructInit(a); m != nil && depth < 30 {
+			t := &Term{Op: "struct", Name: typeShort(a.Type()), Site: a.Pos(), literal: true}
+			var names []string
+			vals := map[string]*Term{}
+			for f, v := range m {
+				n := fieldNameShort(a.Type(), f)
+				names = append(names, n)
+				vals[n] = ts.of(v, nil, depth+1)
+			}
+			sort.Strings(names)
+			for _, n := range names {
+				t.Args = append(t.Args, mk("const", n), vals[n])
+			}
+			return t
+		}
 		return mk("global", shortPkg(a.Pkg.Pkg.Path())+"."+a.Name())
 	case *ssa.Alloc:
 		return ts.loadAlloc(a, nil, fr, depth)
@@ -824,7 +840,65 @@ func (ts *Terms) loadAlloc(a *ssa.Alloc, fld *ssa.FieldAddr, fr *Frame, depth in
 				later = append(later, fst{fieldNameShort(fa.X.Type(), fa.Field), st})
 			}
 		}
-		if len(later) > 0 {
+		// … and so do the fields a callee fills in through the address (sub := newT(); sub.resolve())
+		type cst struct {
+			name string
+			t    *Term
+		}
+		var filled []cst
+		if depth < 30 && frameDepth(fr) < 12 && at != nil && at.Parent() == a.Parent() {
+			for _, r := range *a.Referrers() {
+				c, ok := r.(*ssa.Call)
+				if !ok || c.Common().IsInvoke() || !instrDominates(wholeSt[0], c) || !instrDominates(c, at) {
+					continue
+				}
+				g := c.Common().StaticCallee()
+				if g == nil || g.Blocks == nil || !isIrismodFunc(g) || onChain(fr, g) {
+					continue
+				}
+				// the caller goes on only when the callee succeeded?
+				succeeded := false
+				for _, cf := range callFacts(at.Block()) {
+					if cf.Call == c && cf.Outcome == "err==nil" {
+						succeeded = true
+					}
+				}
+				for i, arg := range c.Common().Args {
+					if arg != ssa.Value(a) || i >= len(g.Params) || g.Params[i].Referrers() == nil {
+						continue
+					}
+					nfr := &Frame{Fn: g, Parent: fr, Call: c, Depth: frameDepth(fr) + 1}
+					for _, pr := range *g.Params[i].Referrers() {
+						fa, ok := pr.(*ssa.FieldAddr)
+						if !ok || fa.Referrers() == nil {
+							continue
+						}
+						name := fieldNameShort(fa.X.Type(), fa.Field)
+						for _, r2 := range *fa.Referrers() {
+							st, ok := r2.(*ssa.Store)
+							if !ok || st.Addr != ssa.Value(fa) {
+								continue
+							}
+							definite := true
+							for _, ret := range returnsOf(g) {
+								if succeeded && isFailureReturn(ret) {
+									continue
+								}
+								if !instrDominates(st, ret) {
+									definite = false
+								}
+							}
+							t := ts.of(st.Val, nfr, depth+1)
+							if !definite {
+								t = phiOf(map[string]*Term{"a": t, "b": simplifyField(base, name)})
+							}
+							filled = append(filled, cst{name, t})
+						}
+					}
+				}
+			}
+		}
+		if len(later) > 0 || len(filled) > 0 {
 			over := map[string]map[string]*Term{}
 			var names []string
 			for _, l := range later {
@@ -834,6 +908,13 @@ func (ts *Terms) loadAlloc(a *ssa.Alloc, fld *ssa.FieldAddr, fr *Frame, depth in
 				}
 				t := ts.of(l.st.Val, fr, depth+1)
 				over[l.name][t.String()] = t
+			}
+			for _, l := range filled {
+				if over[l.name] == nil {
+					over[l.name] = map[string]*Term{}
+					names = append(names, l.name)
+				}
+				over[l.name][l.t.String()] = l.t
 			}
 			sort.Strings(names)
 			if base.Op == "struct" {
@@ -1717,25 +1798,53 @@ func sliceAliases(ms *ssa.MakeSlice) []ssa.Value {
 // a method expression thunk, or a parameter bound to one by a caller); nil for closures
 // over state and anything else.
 func resolveFnValue(v ssa.Value, fr *Frame, d int) *ssa.Function {
+	x := resolveFnRaw(v, fr, d)
+	if x == nil {
+		return nil
+	}
+	if strings.HasPrefix(x.Synthetic, "thunk for ") && len(x.Blocks) == 1 {
+		for _, ins := range x.Blocks[0].Instrs {
+			if c, ok := ins.(*ssa.Call); ok && !c.Common().IsInvoke() && c.Common().StaticCallee() != nil {
+				return c.Common().StaticCallee()
+			}
+		}
+		return nil
+	}
+	if x.Parent() != nil {
+		return nil // an anonymous function
+	}
+	return x
+}
+
+// resolveFnRaw: the function object itself (a thunk stays a thunk, a function literal that
+// captures nothing is returned as it is).
+func resolveFnRaw(v ssa.Value, fr *Frame, d int) *ssa.Function {
 	if d > 8 {
 		return nil
 	}
 	switch x := v.(type) {
 	case *ssa.Function:
-		if strings.HasPrefix(x.Synthetic, "thunk for ") && len(x.Blocks) == 1 {
-			for _, ins := range x.Blocks[0].Instrs {
-				if c, ok := ins.(*ssa.Call); ok && !c.Common().IsInvoke() && c.Common().StaticCallee() != nil {
-					return c.Common().StaticCallee()
-				}
-			}
-			return nil
-		}
-		if x.Parent() != nil {
-			return nil // an anonymous function
-		}
 		return x
 	case *ssa.ChangeType:
-		return resolveFnValue(x.X, fr, d+1)
+		return resolveFnRaw(x.X, fr, d+1)
+	case *ssa.Field:
+		// a function kept in a field of a table / record assembled up the chain
+		if v2, fr2 := fieldOfValue(x.X, x.Field, fr, d+1); v2 != nil {
+			return resolveFnRaw(v2, fr2, d+1)
+		}
+	case *ssa.UnOp:
+		if x.Op == token.MUL {
+			if fa, ok := x.X.(*ssa.FieldAddr); ok {
+				if a, ok := fa.X.(*ssa.Alloc); ok {
+					if v2, fr2 := fieldOfAlloc(a, fa.Field, fr, d+1); v2 != nil {
+						return resolveFnRaw(v2, fr2, d+1)
+					}
+				}
+			}
+			if gv := globalFieldOfLoad(x, -1); gv != nil {
+				return resolveFnRaw(gv, nil, d+1)
+			}
+		}
 	case *ssa.Parameter:
 		if fr == nil || fr.Call == nil {
 			return nil
@@ -1747,7 +1856,7 @@ func resolveFnValue(v ssa.Value, fr *Frame, d int) *ssa.Function {
 		}
 		for i, p := range fn.Params {
 			if p == x && i < len(cc.Args) {
-				return resolveFnValue(cc.Args[i], argsFrame(fr), d+1)
+				return resolveFnRaw(cc.Args[i], argsFrame(fr), d+1)
 			}
 		}
 	}
@@ -1784,6 +1893,9 @@ func resolveClosure(v ssa.Value, fr *Frame, d int) (*ssa.MakeClosure, *ssa.Funct
 						return resolveClosure(v2, fr2, d+1)
 					}
 				}
+			}
+			if gv := globalFieldOfLoad(x, -1); gv != nil {
+				return resolveClosure(gv, nil, d+1)
 			}
 		}
 	case *ssa.Field:
@@ -2128,6 +2240,10 @@ func fieldOfValue(v ssa.Value, f int, fr *Frame, d int) (ssa.Value, *Frame) {
 		if x.Op == token.MUL {
 			if a, ok := x.X.(*ssa.Alloc); ok {
 				return fieldOfAlloc(a, f, fr, d+1)
+			}
+			// a package-level table initialised once by its declaration
+			if gv := globalFieldOfLoad(x, f); gv != nil {
+				return gv, nil
 			}
 		}
 	}
